@@ -99,16 +99,21 @@ func ExploreNotify(newWorld func(sc NotifyScenario) NotifyWorld, initData string
 	var resA, resB []notifyRes
 	var world NotifyWorld
 	var ctx context.Context
+	// releases, once a run has been judged, the waiters it left blocked (they would otherwise pile up
+	// over thousands of runs and make every goroutine dump slower, and in the end too long)
+	release := func() {}
 	setup := func(c *Ctl) func(r *Run) {
 		world = newWorld(sc)
 		var cancel context.CancelFunc
 		ctx, cancel = context.WithCancel(context.Background())
+		ctx1, cancel1 := context.WithCancel(context.Background())
+		release = func() { cancel(); cancel1() }
 		resA, resB = nil, nil
 		waiter := func(idx, calls int, res *[]notifyRes) func() string {
 			return func() string {
 				wctx := ctx
 				if sc.CancelFirstOnly && idx == 1 {
-					wctx = context.Background()
+					wctx = ctx1 // not cancelled during the run
 				}
 				for i := 0; i < calls; i++ {
 					upd, ok := world.Wait(wctx, idx)
@@ -138,6 +143,7 @@ func ExploreNotify(newWorld func(sc NotifyScenario) NotifyWorld, initData string
 	}
 	n := 0
 	each := func(r Run) {
+		defer func() { release() }()
 		n++
 		var sched []string
 		sched = append(sched, r.Sched...)
